@@ -1064,7 +1064,10 @@ fn main() {
             }
             "c06" => guard(id, &mut out, |out| case_elim(&mut cr, id, true, out)),
             "c05" => {
-                if id % 8 == 7 {
+                if id % 16 == 13 {
+                    // K = 4 pruned compositions (receivers with planted sound states): caches of the result re-checked
+                    guard(id, &mut out, |out| case_kcprune(&mut cr, id, out))
+                } else if id % 8 == 7 {
                     guard(id, &mut out, |out| case_remove_axes(&mut cr, id, out))
                 } else if id % 3 == 0 {
                     guard(id, &mut out, |out| case_mirror(&mut cr, id, out))
